@@ -141,7 +141,7 @@ def checkTable (B : Builder S T) (dsl : Dsl) (req : Ty) (G : TT S T) (progs : Li
   let sub := subVerdict rows G
   let cl := closedVerdict G
   .list [ofBool (sub.1 && G.start == startOf B req), ofBool cl.1, ofNat sub.2,
-    encOptNat (programs G fuel),
+    encOptNat (programs G fuel), encOptNat (programsFixed G fuel),
     .list (progs.map fun t => .list ([ofBool (PS.G.contains G t), ofBool (inLang G t),
       ofBool (run (fun nt P => AList.lookup P (rows nt)) t (req.returns, B.init.1) B.init.2).isSome] ++ spec t))]
 
@@ -149,29 +149,31 @@ end Check
 
 def handle : Sexp → Option Sexp
   -- model constructors
-  | .list [.atom "c13.size", d, r, k, n, actual, fuel] => do
+  | .list [.atom "c13.size", d, r, k, n, actual, sk, fuel] => do
       let dsl ← decDsl d
       let req ← decTy r
       let fuel ← fuel.nat?
       let k ← k.nat?
       let n ← n.int?
       let actual ← actual.bool?
-      let res := sizeConstraint dsl req k n actual fuel
+      let sk ← sk.bool?
+      let res := sizeConstraint dsl req k n actual sk fuel
       pure (.list [encRes (fun g => .list [encTTg ctxC sizeC g.G, encOptNat (programs g.G fuel), encTy g.typeRequest]) res,
-        match saturationTable (sizeBuilder dsl n k actual) dsl.prims req fuel with
+        match saturationTable (sizeBuilder dsl n k actual) dsl.prims req sk fuel with
         | some g => encTTg ctxC sizeC g
         | none => .atom "none",
         ofBool (firstOrder dsl)])
-  | .list [.atom "c13.atmost", d, r, name, k, n, fuel] => do
+  | .list [.atom "c13.atmost", d, r, name, k, n, sk, fuel] => do
       let dsl ← decDsl d
       let req ← decTy r
       let fuel ← fuel.nat?
       let k ← k.nat?
       let n ← n.int?
       let name ← name.string?
-      let res := atMostK dsl req name k n fuel
+      let sk ← sk.bool?
+      let res := atMostK dsl req name k n sk fuel
       pure (.list [encRes (fun g => .list [encTTg ctxC natC g.G, encOptNat (programs g.G fuel), encTy g.typeRequest]) res,
-        match saturationTable (atMostBuilder dsl n name k) dsl.prims req fuel with
+        match saturationTable (atMostBuilder dsl n name k) dsl.prims req sk fuel with
         | some g => encTTg ctxC natC g
         | none => .atom "none",
         ofBool (firstOrder dsl)])
@@ -203,7 +205,10 @@ def handle : Sexp → Option Sexp
       let cl := closedVerdict GI
       pure (.list [
         encRes (fun g => .list [encTTg pc pc g, encOptNat (programs g fuel), encTy (guessTypeRequest raw)]) (mul G1 G2 fuel),
+        encRes (fun g => .list [encTTg pc pc g, encOptNat (programsFixed g fuel)]) (cleanFixed raw fuel),
+        encOptNat (programsFixed GI fuel),
         ofBool (sub.1 && GI.start == raw.start), ofBool cl.1, encOptNat (programs GI fuel),
+        ofBool (typedOK G1 && typedOK G2 && G1.start.1 == G2.start.1),
         .list (ps.map fun t => .list [ofBool (PS.G.contains G1 t), ofBool (PS.G.contains G2 t),
           ofBool (PS.G.contains GI t), ofBool (inLang raw t)])])
   -- clean / programs of an arbitrary table with opaque states
